@@ -43,13 +43,13 @@ fn strategy(t: Tier) -> BoxedStrategy<Case> {
         1 => Just(Pre::OpenAllSlots),
     ];
     bx((
-        1u8..=4,
+        prop_oneof![5 => 1u8..=4, 1 => Just(0u8)],
         prop_oneof![1 => 1u16..8, 3 => 8u16..200],
         prop::collection::vec(pre, 0..t.pick(30, 40)),
         lab_addr_or_bcast(),
         any::<u16>(),
         lab_addr_or_bcast(),
-        prop_oneof![3 => 0u8..8, 1 => any::<u8>()],
+        frag_id_any(),
         any::<u16>(),
         (prop::collection::vec(1u16..100, 1..4), any::<bool>()),
     )
@@ -58,7 +58,8 @@ fn strategy(t: Tier) -> BoxedStrategy<Case> {
 
 fn check(c: &Case, st: &mut Stats) -> Result<(), String> {
     let ps = c.pdu_size as usize;
-    let mut d = new_simple_dec(c.slots as usize, ps, &[], TableManager::all());
+    let mut d = new_simple_dec(slots_of(c.slots), ps, &[], TableManager::all());
+    st.class_if(c.slots == 0, "256-slots");
     let mut quiet = Stats::new(st.tier, vec![]);
     let mut last_was_err = false;
     for p in &c.prefix {
@@ -82,7 +83,7 @@ fn check(c: &Case, st: &mut Stats) -> Result<(), String> {
             }
             Pre::Drain => while d.new_pdu().is_ok() {},
             Pre::OpenAllSlots => {
-                for s in 0..c.slots {
+                for s in (0..slots_of(c.slots)).map(|s| s as u8) {
                     let _ = d.memory.provision_storage(vec![0u8; ps + 1].into_boxed_slice());
                     let pdu = pdu_bytes(ps.max(2), 4);
                     let t = ref_train(Lab::Broadcast, 0x0800, s, &pdu, &[1]);
